@@ -436,7 +436,7 @@ pub fn run(ctx: &mut Ctx) {
         "requests and exchange reports about one order agree on its static data".into(),
     ];
     ctx.run_regressions::<AuditReplica>();
-    ctx.run::<AuditReplica>(ctx.tier.pick(1_500, 40_000));
+    ctx.run::<AuditReplica>(ctx.tier.pick(30_000, 500_000));
 }
 
 pub fn replay(ctx: &mut Ctx, doc: &Value) -> bool {
